@@ -9,9 +9,10 @@ CONSTANTS
   SpuriousPolls = TRUE
   FixLeak = FALSE
   MaxNL = 3
-  MaxSteps = 8
+  MaxSteps = 6
   AutoPoll = FALSE
   AllowPark = TRUE
+  EmitAll = TRUE
 SPECIFICATION GSpec
 INVARIANTS GenSafe Emit
 VIEW CoverView
